@@ -1159,6 +1159,13 @@ SDcreate(int32       fid,  /* IN: file ID */
         var->rag_fill = 0;
     }
 
+    /* compute all of the shape information; a shape that cannot be stored is
+       refused before the variable becomes part of the file's list */
+    if (NC_var_shape(var, handle->dims) == -1) {
+        NC_free_var(var);
+        HGOTO_ERROR(DFE_INTERNAL, FAIL);
+    }
+
     /* add it to the handle */
     if (handle->vars == NULL) { /* first time */
         handle->vars = NC_new_array(NC_VARIABLE, (unsigned)1, (uint8_t *)&var);
@@ -1175,11 +1182,6 @@ SDcreate(int32       fid,  /* IN: file ID */
                 HGOTO_ERROR(DFE_INTERNAL, FAIL);
             }
         }
-    }
-
-    /* compute all of the shape information */
-    if (NC_var_shape(var, handle->dims) == -1) {
-        HGOTO_ERROR(DFE_INTERNAL, FAIL);
     }
 
     /* create a handle we can give back to the user */
